@@ -159,6 +159,11 @@ def check(run: Run) -> None:
             ok = all(any(a == k or a in unphi_terms(k) for k in keys) for a in unphi_terms(rtm))
             run.check(ok, "C09.R2" if name != "process_method_call" else "C09.R1", fi, s_, f"{name} records the type of the node it returns", f"{name} returns {show(rtm)[:60]} without recording its type (recorded: {[show(k)[:30] for k in keys]}): a call chained on the rewritten call site is followed as Any and its class / method callbacks silently do not fire", "self._found_types[r_node] = return_type")
 
+    # ---------------- R6 (second half): what the processed copy of a nested call gained is copied back to the call it replaces
+    from .c07 import check_patch_back
+
+    check_patch_back(run, TermCtx(m, max_depth=2, opaque={"as_literal", "_find_keyword", "resolve_type_vars", "get_type_hints"}), m, mod, "C09.R6")
+
     # ---------------- R7: registration replaces an earlier registration of the same name (last one wins)
     run.rule("C09.R7", "register_func_adl_function stores _global_functions[name] = info (a later registration replaces an earlier one); nested lambdas are followed with their own parameter's type")
     rf = m.find_func("register_func_adl_function", in_module=mod)
